@@ -39,6 +39,7 @@ structure Tab where
   isView : Bool
   cols : List Col
   comment : Option Nat
+  pk : Option Name          -- column declared PRIMARY KEY (DuckDB keeps constraints in the catalog: no side table involved)
   deriving DecidableEq, Repr
 
 structure World where
@@ -50,7 +51,7 @@ structure World where
 def World.init : World := ⟨[], [], []⟩
 
 inductive Op
-  | createTable (k : Key) (cols : List Col) (comment : Option Nat) (orReplace : Bool)
+  | createTable (k : Key) (cols : List Col) (comment : Option Nat) (orReplace : Bool) (pk : Option Name)
   | ctas (k src : Key) (sel : List Name) (orReplace : Bool)     -- CREATE TABLE k AS SELECT sel FROM src
   | clone (k src : Key) (orReplace : Bool)                      -- CREATE TABLE k CLONE src
   | createView (k src : Key) (sel : List Name) (orReplace : Bool)
@@ -86,6 +87,11 @@ def selectCols (src : List Col) : List Name → Option (List Col)
     | some c, some rest => if rest.any (·.name == n) then none else some (c :: rest)
     | _, _ => none
 
+/-- a declared PRIMARY KEY names one of the columns -/
+def pkOk (cols : List Col) : Option Name → Bool
+  | some p => cols.any (·.name == p)
+  | none => true
+
 def World.remove (w : World) (k : Key) : List Tab := w.tabs.filter (·.key != k)
 
 /-- may an object be created under `k`?  CREATE TABLE: free, or OR REPLACE over a table; CREATE VIEW: free, or OR
@@ -97,9 +103,10 @@ def canCreate (w : World) (k : Key) (asView orReplace : Bool) : Bool :=
 
 /-- one DDL statement: success flag and new world.  A failed statement changes nothing. -/
 def step (w : World) : Op → Bool × World
-  | .createTable k cols comment orReplace =>
-    if cols.isEmpty || !distinctNames cols || !canCreate w k false orReplace then (false, w) else
-    (true, { tabs := w.remove k ++ [⟨k, false, cols, comment⟩],
+  | .createTable k cols comment orReplace pk =>
+    if cols.isEmpty || !distinctNames cols || !canCreate w k false orReplace
+       || !pkOk cols pk then (false, w) else
+    (true, { tabs := w.remove k ++ [⟨k, false, cols, comment, pk⟩],
              cExt := textRows k cols ++ w.cExt,
              tExt := match comment with | some c => (k, c) :: w.tExt | none => w.tExt })
   | .ctas k src sel orReplace =>
@@ -110,13 +117,13 @@ def step (w : World) : Op → Bool × World
       | none => (false, w)
       | some cols =>
         if cols.isEmpty || !canCreate w k false orReplace then (false, w) else
-        (true, { w with tabs := w.remove k ++ [⟨k, false, cols, none⟩] })   -- nothing is recorded
+        (true, { w with tabs := w.remove k ++ [⟨k, false, cols, none, none⟩] })   -- nothing is recorded, constraints are not copied
   | .clone k src orReplace =>
     match w.find src with
     | none => (false, w)
     | some s =>
       if !canCreate w k false orReplace then (false, w) else
-      (true, { w with tabs := w.remove k ++ [⟨k, false, s.cols, s.comment⟩] })   -- `create_clone` = CTAS of `*`
+      (true, { w with tabs := w.remove k ++ [⟨k, false, s.cols, s.comment, none⟩] })   -- `create_clone` = CTAS of `*`
   | .createView k src sel orReplace =>
     match w.find src with
     | none => (false, w)
@@ -125,7 +132,7 @@ def step (w : World) : Op → Bool × World
       | none => (false, w)
       | some cols =>
         if cols.isEmpty || !canCreate w k true orReplace || k == src then (false, w) else
-        (true, { w with tabs := w.remove k ++ [⟨k, true, cols, none⟩] })
+        (true, { w with tabs := w.remove k ++ [⟨k, true, cols, none, none⟩] })
   | .addCol k c =>
     match w.find k with
     | some t =>
@@ -202,6 +209,10 @@ def infoTablesI (w : World) (d s : Name) : List (Name × Bool × Option Nat) :=
 def showObjects (w : World) (d s : Name) (tablesOnly : Bool) : List (Name × Bool) :=
   (w.tabs.filter fun t => t.key.1 == d && t.key.2.1 == s && (!tablesOnly || !t.isView)).map fun t => (t.key.2.2, t.isView)
 
+/-- SHOW PRIMARY KEYS IN SCHEMA d.s: (table, key column) of the live tables of that schema that declare a key -/
+def showKeys (w : World) (d s : Name) : List (Name × Name) :=
+  (w.tabs.filter fun t => t.key.1 == d && t.key.2.1 == s).filterMap fun t => t.pk.map fun p => (t.key.2.2, p)
+
 /-- VARCHAR(n) octet length (`info_schema.insert_text_lengths_sql`) -/
 def octetLen (n : Nat) : Nat := min (n * 4) 16777216
 
@@ -234,7 +245,7 @@ def hasText (cols : List Col) : Bool := cols.any (·.ty.isText)
 
 /-- statements on which the side-table bookkeeping is known to go wrong (judged in the state before the statement) -/
 def region (w : World) : Op → Option Finding
-  | .createTable k _ comment _ =>
+  | .createTable k _ comment _ _ =>
     -- a comment row survives DROP / OR REPLACE / a COMMENT on a missing table and is shown for the new table
     if comment.isNone && (lookupT w.tExt k).isSome then some .staleComment else none
   | .ctas k src sel _ =>
